@@ -56,8 +56,10 @@ impl<T: Trace> Cc<T> {
                 panic!("Cannot create a new Cc while tracing!");
             }
 
+            #[cfg(kani)] let __um = crate::verif::unwind_mark(); // verification hook (H4): emulated unwinding, /verif/DESIGN.md 2.5
             #[cfg(feature = "auto-collect")]
             super::trigger_collection(state);
+            #[cfg(kani)] if crate::verif::unwound(__um) { return Cc { inner: NonNull::dangling(), _phantom: PhantomData }; } // verification hook (H4): emulated unwinding, /verif/DESIGN.md 2.5 (poisoned value, forgotten by the caller; `t` is dropped by this closure return exactly as by an unwind)
 
             Cc {
                 inner: CcBox::new(t, state),
@@ -285,7 +287,9 @@ impl<T: ?Sized + Trace> Drop for Cc<T> {
                     // Set finalized
                     self.counter_marker().set_finalized(true);
 
+                    #[cfg(kani)] let __um = crate::verif::unwind_mark(); // verification hook (H4): emulated unwinding, /verif/DESIGN.md 2.5
                     self.inner().get_elem().finalize();
+                    #[cfg(kani)] if crate::verif::unwound(__um) { return; } // verification hook (H4): emulated unwinding, /verif/DESIGN.md 2.5
 
                     if self.counter_marker().counter() != 1 {
                         // The object has been resurrected
@@ -310,7 +314,9 @@ impl<T: ?Sized + Trace> Drop for Cc<T> {
 
                 // SAFETY: we're the only one to have a pointer to this allocation
                 unsafe {
+                    #[cfg(kani)] let __um = crate::verif::unwind_mark(); // verification hook (H4): emulated unwinding, /verif/DESIGN.md 2.5
                     drop_in_place(self.inner().get_elem_mut());
+                    #[cfg(kani)] if crate::verif::unwound(__um) { return; } // verification hook (H4): emulated unwinding, /verif/DESIGN.md 2.5
 
                     #[cfg(feature = "pedantic-debug-assertions")]
                     debug_assert_eq!(
